@@ -2,7 +2,8 @@
      jwrite_res fl rs = WOk s  with  w_out s = render_lay (layout rs)
    for every record list and every flush pattern (so the writer never panics, never runs out
    of fuel, and its output does not depend on where Flush is called). *)
-From GL Require Import Base.Bytes Base.BytesProofs Codec.Journal Codec.JournalSpec Codec.JournalLemmas.
+From GL Require Import Base.Bytes Base.BytesProofs Codec.Journal Codec.JournalSpec Codec.JournalLemmas
+  Codec.JournalLayoutProofs.
 From Coq Require Import Lia ZifyN ZifyNat ZifyBool.
 
 Section WriterProofs.
@@ -325,18 +326,18 @@ Section WriterProofs.
     rewrite takeN_app_exact; [reflexivity|]. rewrite lenN_takeN. lia.
   Qed.
 
-  Lemma wWrite_ok : forall fuel l f d s q,
+  Lemma wWrite_st_ok : forall fuel l f d s q,
     WRelP l f d s -> (length q <= fuel)%nat ->
     exists s' l' f' d',
       wWrite crc p fuel s q = WOk s' /\ WRelP l' f' d' s' /\
-      lay_push l' (mk (last_type p f') d') = lay_write p fuel l f d q.
+      (l', f', d') = lay_write_st p fuel l f d q.
   Proof.
     pose proof whs7 as H7. pose proof whs_lt_bs as Hb.
     induction fuel as [|fuel IH]; intros l f d s q R Hq.
     - destruct q; [|cbn in Hq; lia]. cbn. exists s, l, f, d. auto.
     - destruct q as [|x q].
       { cbn. exists s, l, f, d. auto. }
-      cbn [wWrite lay_write].
+      cbn [wWrite lay_write_st].
       pose proof R as (Hlen & Hj & Hp & Hf & Hi & Hji & HA & Hd & Hw & Hout).
       replace (bsize p (l_open l) + hs p + lenN d) with (w_j s) by lia.
       destruct (w_j s =? bs p) eqn:Efull.
@@ -370,6 +371,45 @@ Section WriterProofs.
         { assert (L : lenN (dropN n (x :: q)) <= lenN (x :: q) - 1) by (rewrite lenN_dropN; lia).
           unfold lenN in L. cbn [length] in *. lia. }
         exists s', l', f', d'. split; [exact E|]. split; [exact R'|]. exact EL.
+  Qed.
+
+  Lemma WRelP_fits l f d s : WRelP l f d s -> fits p l d.
+  Proof. intros (_ & Hj & _ & _ & Hi & Hji & _). unfold fits. lia. Qed.
+
+  Lemma wWrite_ok : forall fuel l f d s q,
+    WRelP l f d s -> (length q <= fuel)%nat ->
+    exists s' l' f' d',
+      wWrite crc p fuel s q = WOk s' /\ WRelP l' f' d' s' /\
+      lay_push l' (mk (last_type p f') d') = lay_write p fuel l f d q.
+  Proof.
+    intros fuel l f d s q R Hq.
+    destruct (wWrite_st_ok fuel l f d s q R Hq) as (s' & l' & f' & d' & E & R' & Est).
+    exists s', l', f', d'. split; [exact E|]. split; [exact R'|].
+    rewrite (lws_fin p pok fuel l f d q (WRelP_fits _ _ _ _ R) Hq), <- Est. reflexivity.
+  Qed.
+
+  (* several Write calls: the state reached is the one reached by one Write of the concatenation *)
+  Lemma wWrites_ok : forall ps l f d s,
+    WRelP l f d s ->
+    exists s' l' f' d',
+      wWrites crc p s ps = WOk s' /\ WRelP l' f' d' s' /\
+      (l', f', d') = lay_write_st p (length (concat ps)) l f d (concat ps).
+  Proof.
+    induction ps as [|q ps IH]; intros l f d s R.
+    - exists s, l, f, d. cbn. auto.
+    - cbn [wWrites concat].
+      destruct (wWrite_st_ok (length q) l f d s q R ltac:(lia)) as (s1 & l1 & f1 & d1 & E1 & R1 & Est1).
+      rewrite E1. cbn [wbind].
+      destruct (IH l1 f1 d1 s1 R1) as (s2 & l2 & f2 & d2 & E2 & R2 & Est2).
+      exists s2, l2, f2, d2. split; [exact E2|]. split; [exact R2|].
+      pose proof (WRelP_fits _ _ _ _ R) as Hfit. pose proof (WRelP_fits _ _ _ _ R1) as Hfit1.
+      rewrite (lws_app p pok (length q) q ltac:(lia) (length (q ++ concat ps)) l f d (concat ps) Hfit ltac:(lia)).
+      rewrite (lws_fuel p pok (length (q ++ concat ps)) (length q) l f d q Hfit)
+        by (rewrite ?app_length; lia).
+      rewrite <- Est1.
+      rewrite (lws_fuel p pok (length (q ++ concat ps)) (length (concat ps)) l1 f1 d1 (concat ps) Hfit1)
+        by (rewrite ?app_length; lia).
+      exact Est2.
   Qed.
 
   (* ---- one record, all records *)
@@ -426,5 +466,60 @@ Section WriterProofs.
   Corollary jwrite_layout fl rs : jwrite crc p fl rs = render_lay crc p (layout p rs).
   Proof.
     unfold jwrite. destruct (writer_layout fl rs) as (s & E & Ho). rewrite E. exact Ho.
+  Qed.
+
+  (* ---- records written through several Write calls *)
+  Lemma wRecordP_ok l pend s ps fl :
+    WRel l pend s ->
+    exists s' l' pend',
+      wRecordP crc p s ps fl = WOk s' /\ WRel l' pend' s' /\
+      fin l' pend' = lay_record p (fin l pend) (concat ps).
+  Proof.
+    intros R. unfold wRecordP.
+    destruct (wNext_ok l pend s R) as (s1 & E1 & R1). rewrite E1. cbn [wbind].
+    destruct (wWrites_ok ps _ true [] s1 R1) as (s2 & l2 & f2 & d2 & E2 & R2 & Est).
+    rewrite E2. cbn [wbind].
+    assert (EL : lay_push l2 (mk (last_type p f2) d2) = lay_record p (fin l pend) (concat ps)).
+    { unfold lay_record. rewrite (lws_fin p pok (length (concat ps)) _ true [] (concat ps) (WRelP_fits _ _ _ _ R1) (le_n _)).
+      rewrite <- Est. reflexivity. }
+    destruct fl.
+    - destruct (writePending_ok l2 (Some (f2, d2)) s2 R2) as (s3 & E3 & R3 & _).
+      unfold wFlush. rewrite E3. exists s3, (fin l2 (Some (f2, d2))), None.
+      split; [reflexivity|]. split; [exact R3|]. cbn [fin]. exact EL.
+    - exists s2, l2, (Some (f2, d2)). split; [reflexivity|]. split; [exact R2|]. cbn [fin]. exact EL.
+  Qed.
+
+  Lemma wRecordsP_ok rss : forall fl l pend s,
+    WRel l pend s ->
+    exists s' l' pend',
+      wRecordsP crc p s fl rss = WOk s' /\ WRel l' pend' s' /\
+      fin l' pend' = fold_left (lay_record p) (map (@concat N) rss) (fin l pend).
+  Proof.
+    induction rss as [|ps rss IH]; intros fl l pend s R.
+    - exists s, l, pend. cbn. auto.
+    - cbn [wRecordsP fold_left map].
+      destruct (wRecordP_ok l pend s ps (hd false fl) R) as (s1 & l1 & pend1 & E1 & R1 & EL1).
+      rewrite E1. cbn [wbind].
+      destruct (IH (tl fl) l1 pend1 s1 R1) as (s2 & l2 & pend2 & E2 & R2 & EL2).
+      exists s2, l2, pend2. split; [exact E2|]. split; [exact R2|]. rewrite EL2, EL1. reflexivity.
+  Qed.
+
+  Theorem writer_pieces_layout fl rss :
+    exists s, jwrite_pieces_res crc p fl rss = WOk s /\
+              w_out s = render_lay crc p (layout p (map (@concat N) rss)).
+  Proof.
+    unfold jwrite_pieces_res.
+    destruct (wRecordsP_ok rss fl lay_empty None (w_init p) w_init_rel) as (s1 & l1 & pend1 & E1 & R1 & EL).
+    rewrite E1. cbn [wbind]. unfold wClose.
+    destruct (writePending_ok l1 pend1 s1 R1) as (s2 & E2 & R2 & Hw).
+    exists s2. split; [exact E2|].
+    cbn [WRel] in R2. destruct R2 as (_ & Hlen & Hj & Hjb & HA & _ & Hout).
+    rewrite Hout, Hw, HA. unfold render_lay, layout. rewrite EL. reflexivity.
+  Qed.
+
+  Corollary jwrite_pieces_layout fl rss :
+    jwrite_pieces crc p fl rss = render_lay crc p (layout p (map (@concat N) rss)).
+  Proof.
+    unfold jwrite_pieces. destruct (writer_pieces_layout fl rss) as (s & E & Ho). rewrite E. exact Ho.
   Qed.
 End WriterProofs.
